@@ -99,7 +99,11 @@ class GridObject(ObjectBase, ABC):
                     and isinstance(getattr(child, "values", None), np.ndarray)
                     and child.values.shape == mask.shape
                 ):
-                    values = np.ones_like(child.values) * np.nan
+                    if child.values.dtype.kind in "biuf":
+                        values = np.ones_like(child.values) * np.nan
+                    else:
+                        # text has no number to blank with: the entries left out are empty
+                        values = np.full_like(child.values, "")
                     values[mask] = child.values[mask]
                 else:
                     values = child.values
